@@ -8,9 +8,18 @@ Store model (type invariant of the inputs, DESIGN.md section 3 "C18"):
   ctx.config["graph"] is the *normalised* dict produced by configs/validate.py (every key present), its value
   ranges are exactly the ones the validator enforces (named `requires` "validator-ranges").
 
+  `state.graph` present, `meta` carries all its keys (as after _ensure_graph_store has run once).
+
 Engine additions made for this file (pyvc): R.mutrec / values.TMutRec (by-value mutable dict records with alias
-write-back), structural == on such records, `for k, rec in m.items()` yields the current value with its origin,
-loop mod-set follows aliases bound inside the loop body (modset.alias_sources).
+write-back), structural == on such records, eta-reduction of unmodified stored containers, `for k, rec in m.items()`
+yields the current value with its origin, loop mod-set follows aliases bound inside the loop body
+(modset.alias_sources), cut-point keys `var@k` and directives check:/forget-axioms:/abstract:/forget:, retries of
+`unknown` goals on subsets of the hypotheses (core.Path._sliced_prove), contract option abstract_str_order,
+triggers for filter comprehensions over mapped lists, posts are never assumed after a failed/unknown verdict.
+
+Not covered here (see final report): NaN scores (floats are reals), the 2-run clause "result independent of the order of
+items" (follows informally from the selection obligations when (id, score) pairs are distinct), merge_candidates /
+split_candidates (graph search; not in the anchors of C18).
 """
 from pyvc.verifier import REG as R
 
